@@ -15,6 +15,12 @@ Tie: T + K.
      changed, solved again; the model threads the cached `rotation` values of the pass objects from solve to solve) and for pass
      classes that carry further pre-processor factories around `rotator_factory`.
 
+     The arrangement is all the property talks about ("within one pass sequence"): every stream therefore also puts the sequence
+     together in other ways than by the constructor (list operations, units taken over from another sequence, a deep copy,
+     sub-sequences dissolved with PassSequence.flatten()) and gives transports / plain units / roll passes an inner structure of
+     their own (disk elements, parts).  The object graph behind it - parents, member lists, `Unit.prev`, `_SubUnitsList`,
+     `flatten` - is translated too (PyrollModel/RotNav.lean interprets it) and compared with the real objects (stream (n)).
+
 The oracle is written from the property text (see `Oracle`): it counts the rotators that act between two passes
 (spy on `Rotator.solve`), measures the turn between pass k's out and pass k+1's in cross-section vertex by vertex
 (a scalene marker polygon, so no symmetry can hide a turn), checks every acting rotator (out ring = in ring turned
@@ -44,6 +50,14 @@ RULE = ("(a) every translated rule function x every subset pair of the classifie
         "a random sequence is solved, then 1-4 times edited (rotators/transports/other units/passes inserted, removed, replaced, "
         "swapped; a pass' rotation set or deleted; the switch toggled) and solved again with 1-3 outer iterations, objects keep their "
         "identity and caches; (i) the same with real passes and the real PassSequence.solve (default and small max_iteration_count). "
+        "In (c)-(e), (p), (h), (i) the sequence is also put together by other routes than the constructor (append / prepend / extend / += / "
+        "insert / slice assignment / units of another sequence / deepcopy / random splits into (empty, doubly) nested sub-sequences "
+        "dissolved with flatten(); in histories also seq.append/prepend/drop/pop and a part of the live sequence wrapped into a "
+        "sub-sequence and flattened again, or a new sequence object made of the same units), and transports, cooling pipes, plain units "
+        "and roll passes are given disk elements / parts of their own; every word of (c) is run a third time that way; (n) random object "
+        "graphs: the nested sequence before flatten(), after each flatten(), and after the units were solved (disk elements exist) are "
+        "written out (parents, member lists) and flatten / the walk function called directly on every pass are compared with the model's "
+        "navigation. "
         "A case is one sequence + switch value (or one history); non-trivial = it has two passes with something or nothing "
         "between them (or, for (b)/(g), selects a non-default rule / a non-zero angle; for histories: a re-solve with two passes); "
         "distinct by the canonical token list.")
@@ -59,9 +73,13 @@ ASSUMPTIONS = [
     "the deformation inside a roll pass is irrelevant to the property: in the driven streams the pass is entered with the real "
     "init_solve (rotation hook, rotator_factory, auto-rotator) and its out profile is a marker polygon supplied by the harness; "
     "stream (e) runs the real PassSequence.solve end to end",
+    "the object graph (PyrollModel/RotNav.lean): `list.index`/`list.__getitem__` of the member list, weak parent references that are "
+    "alive, `PassSequence.units` = copy of the member list; of `_SubUnitsList` only `__init__` and `clear` (what flatten goes through) "
+    "are translated - append/extend/insert/pop/remove/item and slice assignment/deepcopy are covered by the build routes of the "
+    "differential runs only",
 ]
-TRUSTED_EXTRA = ["C14: sequences are flat (nested sequences are outside the property's quantifier; what happens there is reported "
-                 "in evidence notes only)"]
+TRUSTED_EXTRA = ["C14: sequences are flat WHEN SOLVED (a sequence put together from sub-sequences and flattened is inside the quantifier; "
+                 "sequences solved while still nested are outside it; what happens there is reported in evidence notes only)"]
 
 TOL_COORD = 1e-12      # relative to the largest coordinate: two float evaluations of the same rotation
 TOL_ANGLE = 1e-7       # degrees
@@ -89,7 +107,25 @@ def _in_impl(e):
 #   exactly one `F` = rotator_factory (inherited from BaseRollPass), `i` = factory of a plain unit whose solve returns a NEW
 #   profile, `m` = factory of a duck unit that returns the profile object it was given, `n` = factory returning None;
 #   those left of `F` are registered on a mixin behind Unit in the MRO (yielded first), those right of it on the subclass.
+#   units with an inner structure of their own (their `subunits`; the arrangement of the SEQUENCE is what the property talks about):
+#     T:<n> / Tc:<n>  transport / cooling pipe subdivided into n disk elements (`disk_element_count=n`; the disk elements exist as
+#                     subunits of the transport once it has been solved),
+#     O:<n>           plain unit made of n plain parts (its own subunits, solved one after the other by `Unit.solve`),
+#     variant~<n>     the roll pass is subdivided into n disk elements (s2~2, s3~1, g=oval~3, gw~2 ...)
 # histories: an arrangement is a list of "<id>=<token>"; objects persist between the solves of a history by id.
+#
+# build routes (`build` of a replay, default "ctor"): HOW the flat sequence holding the listed units was put together -
+#   ctor              PassSequence(units)
+#   append / prepend  empty sequence, then seq.append(u) in order / seq.prepend(u) in reverse order
+#   extend / iadd     seq.subunits.extend(units) / seq.subunits += units
+#   insert            seq.subunits.insert(...) in an order that is not the final one
+#   slice             seq.subunits[:] = units
+#   moved             the units were members of another sequence before: PassSequence(other.units)
+#   copy              copy.deepcopy of PassSequence(units) (the copies are driven)
+#   flatten:<groups> / flatten-append:<groups>
+#                     assembled from sub-sequences and flattened with PassSequence.flatten() until flat; <groups> = `.`-separated
+#                     t<k> (k units given directly), n<k> (a nested PassSequence of the next k units, k may be 0), N<k> (nested
+#                     twice); flatten-append puts the members in with seq.append(...) instead of the constructor
 # ---------------------------------------------------------------------------------------------------------------
 def parse_setting(s):
     if s == "u":
@@ -238,12 +274,14 @@ class World:
     def build(self, tok, rng=None):
         """token -> (kind, real unit, model token)"""
         t = tok.split(":")
-        if t[0] == "T":
-            return "T", self.Transport(label="T", duration=1), "T"
-        if t[0] == "Tc":
-            return "T", self.CoolingPipe(label="Tc", duration=1), "T"
+        if t[0] in ("T", "Tc"):
+            kw = {} if len(t) == 1 else {"disk_element_count": int(t[1])}
+            return "T", (self.Transport if t[0] == "T" else self.CoolingPipe)(label=t[0], duration=1, **kw), "T"
         if t[0] == "O":
-            return "O", self.Other(label="O", duration=0, length=0), "O"
+            u = self.Other(label="O", duration=0, length=0)
+            if len(t) > 1:
+                u.subunits.extend(self.Other(label="O[%d]" % i, duration=0, length=0) for i in range(int(t[1])))
+            return "O", u, "O"
         if t[0] == "R":
             if t[1] == "u":
                 return "R", self.Rotator(label="R"), "R:u"
@@ -252,7 +290,9 @@ class World:
         if t[0] == "P":
             s = parse_setting(t[1])
             kw = {} if s is None else {"rotation": s}
-            variant = t[2]
+            variant, _, disks = t[2].partition("~")
+            if disks:
+                kw["disk_element_count"] = int(disks)
             cls = set() if len(t) < 4 or t[3] == "-" else set(t[3].split(","))
             pres = t[4] if len(t) > 4 else "F"
             mpres = "" if pres == "F" else ":" + pres.replace("m", "i")
@@ -556,13 +596,142 @@ def drive(w, auto, cls0, kinds, units, iters=1, reeval=False):
     return run
 
 
-def run_flow(w, auto, cls0, toks):
-    """one flat sequence of fresh units -> (kinds, units, model_tokens, run)"""
+# ---------------------------------------------------------------------------------------------------------------
+# build routes: the property quantifies over ARRANGEMENTS "within one pass sequence" - however that sequence was put together
+# ---------------------------------------------------------------------------------------------------------------
+SIMPLE_ROUTES = ["ctor", "append", "prepend", "extend", "iadd", "insert", "slice", "moved", "copy"]
+
+
+def parse_groups(spec, n):
+    groups = []
+    for g in spec.split("."):
+        if not g or g[0] not in "tnN":
+            raise ValueError(f"group {g!r} of build route")
+        groups.append((g[0], int(g[1:])))
+    if sum(k for _, k in groups) != n:
+        raise ValueError(f"build route groups {spec} do not cover {n} units")
+    return groups
+
+
+def random_groups(rng, n):
+    """a split of n units into directly given ones and (possibly empty / doubly) nested sub-sequences; at least one is nested"""
+    while True:
+        out, left = [], n
+        while left > 0:
+            if rng.random() < 0.08:
+                out.append("n0")
+            k = rng.randrange(1, min(left, 4) + 1)
+            out.append(rng.choice("nnnttN") + str(k))
+            left -= k
+        if rng.random() < 0.08 or not out:
+            out.append("n0")
+        if any(g[0] in "nN" for g in out):
+            return ".".join(out)
+
+
+def random_route(rng, n, p_flatten=0.5):
+    if n > 0 and rng.random() < p_flatten:
+        return rng.choice(["flatten:", "flatten:", "flatten-append:"]) + random_groups(rng, n)
+    return rng.choice(SIMPLE_ROUTES)
+
+
+def route_without(route, i):
+    """the build route of the arrangement with unit #i dropped"""
+    head, sep, spec = route.partition(":")
+    if not sep:
+        return route
+    out, pos = [], 0
+    for g in spec.split("."):
+        k = int(g[1:])
+        if pos <= i < pos + k:
+            out.append(g[0] + str(k - 1))
+        else:
+            out.append(g)
+        pos += k
+    out = [g for g in out if g != "t0"]
+    return head + ":" + ".".join(out) if out else "ctor"
+
+
+def nested(w, units, route):
+    """the sequence of a `flatten…:<groups>` route BEFORE it is flattened"""
+    PS = w.PassSequence
+    head, _, spec = route.partition(":")
+    items, pos = [], 0
+    for kind, k in parse_groups(spec, len(units)):
+        chunk = units[pos:pos + k]
+        pos += k
+        if kind == "t":
+            items.extend(chunk)
+        elif kind == "n":
+            items.append(PS(chunk))
+        else:
+            items.append(PS([PS(chunk)]))
+    if head == "flatten":
+        return PS(items)
+    seq = PS([])
+    for it in items:
+        seq.append(it)
+    return seq
+
+
+def assemble(w, units, route="ctor"):
+    """-> (a real PassSequence holding `units` in this order, put together the way `route` says; the unit objects it holds)"""
+    PS = w.PassSequence
+    route = route or "ctor"
+    if route == "ctor":
+        seq = PS(units)
+    elif route == "append":
+        seq = PS([])
+        for u in units:
+            seq.append(u)
+    elif route == "prepend":
+        seq = PS([])
+        for u in reversed(units):
+            seq.prepend(u)
+    elif route == "extend":
+        seq = PS([])
+        seq.subunits.extend(units)
+    elif route == "iadd":
+        seq = PS(units[:1])
+        sub = seq.subunits
+        sub += units[1:]
+    elif route == "insert":           # odd positions first, then the even ones each at its final place
+        seq = PS([])
+        for u in units[1::2]:
+            seq.subunits.insert(len(seq), u)
+        for j in range(0, len(units), 2):
+            seq.subunits.insert(j, units[j])
+    elif route == "slice":
+        seq = PS([])
+        seq.subunits[:] = units
+    elif route == "moved":
+        other = PS(units)
+        seq = PS(other.units)
+        del other
+    elif route == "copy":
+        import copy
+        seq = copy.deepcopy(PS(units))
+        return seq, list(seq)
+    elif route.startswith("flatten:") or route.startswith("flatten-append:"):
+        seq = nested(w, units, route)
+        for _ in range(3):
+            if not any(isinstance(u, PS) for u in seq):
+                break
+            seq.flatten()
+    else:
+        raise ValueError(f"build route {route!r}")
+    if [id(u) for u in seq] != [id(u) for u in units]:
+        # not the arrangement that was asked for: nothing the property could be judged on (-> broken tie, see `guarded`)
+        raise ValueError(f"build route {route}: the sequence does not hold the listed units in the listed order")
+    return seq, list(units)
+
+
+def run_flow(w, auto, cls0, toks, route="ctor"):
+    """one flat sequence of fresh units, put together as `route` says -> (kinds, units, model_tokens, run)"""
     built = [w.build(t) for t in toks]
     kinds = [b[0] for b in built]
-    units = [b[1] for b in built]
     mtoks = [b[2] for b in built]
-    seq = w.PassSequence(units)           # sets the parents (kept alive while the units are driven)
+    seq, units = assemble(w, [b[1] for b in built], route)    # sets the parents (kept alive while the units are driven)
     run = drive(w, auto, cls0, kinds, units)
     del seq
     return kinds, units, mtoks, run
@@ -653,6 +822,24 @@ CORPUS = [
 ]
 
 
+# arrangements whose sequence is put together in another way than by the constructor / whose units have an inner structure:
+# the arrangement of the sequence decides who turns the workpiece, nothing else
+CORPUS_BUILT = [
+    (True, ["round"], ["P:u:s2:oval", "T", "P:u:s2:round", "R:n30", "T", "P:u:s2:oval"], "flatten:n2.n4"),        # two mills
+    (True, ["round"], ["P:u:s2:oval", "T", "R:n90", "P:u:s2:round", "T", "P:u:s2:oval"], "flatten-append:t2.n4"),
+    (True, ["round"], ["P:u:s2:oval", "R:u", "T", "P:u:s2:round"], "flatten:n1.N3"),
+    (True, ["round"], ["P:u:s2:oval", "T", "P:u:s2:round"], "flatten:n1.n0.n2"),
+    (True, ["round"], ["P:u:s2:oval", "R:n90", "T", "P:u:s2:round"], "copy"),
+    (True, ["round"], ["P:u:s2:oval", "R:n90", "T", "P:u:s2:round"], "moved"),
+    (False, ["round"], ["P:u:s2:oval", "R:n45", "P:u:s2:round", "P:t:s2:oval"], "flatten:n4"),
+    (True, ["round"], ["P:u:s2:oval", "R:n30", "T:4", "P:u:s2:round"], "ctor"),            # disk elements behind the rotator
+    (True, ["round"], ["P:u:s2:oval", "T:3", "R:n90", "P:u:s2:round"], "ctor"),            # … in front of it
+    (True, ["round"], ["P:u:s2:oval", "R:u", "Tc:1", "O:2", "P:u:s2:round"], "ctor"),
+    (True, ["round"], ["P:u:s2~3:oval", "R:n90", "T", "P:u:s2~3:round"], "ctor"),          # passes with disk elements
+    (True, ["round"], ["P:u:s2~2:oval", "T:2", "O:1", "P:u:s3~1:round"], "append"),        # no rotator: the pass turns it
+]
+
+
 # histories that failed once (the stale `rotation` cache of rotator_factory, see notes/C14.md)
 CORPUS_HIST = [
     {"in_profile_classifiers": ["round"], "real": False, "steps": [       # explicit rotator inserted into a solved sequence
@@ -685,23 +872,28 @@ def words(alphabet, n):
             yield wd + [a]
 
 
-def realise(rng, word, settings, all_unset, pos_seed=0, variants=("s2",), pipes=False):
+def realise(rng, word, settings, all_unset, pos_seed=0, variants=("s2",), pipes=False, inner=0.0):
+    """word over {P, T, R, O} -> tokens; with probability `inner` a transport / plain unit / pass gets an inner structure of its
+    own (disk elements, parts) - irrelevant to the arrangement of the sequence the property talks about"""
     toks = []
     for i, a in enumerate(word):
+        deep = inner > 0 and rng.random() < inner
         if a == "P":
             s = "u" if (all_unset or rng.random() < 0.4) else rng.choice(settings)
             v = rng.choice(variants)
             c = CLS_POOL[(pos_seed + 3 * i) % len(CLS_POOL)] if all_unset else rng.choice(CLS_POOL)
+            if deep:
+                v += "~" + str(rng.randrange(1, 4))
             if v.startswith("g"):
                 toks.append(f"P:{s}:{v}")
             else:
                 toks.append(f"P:{s}:{v}:{cls_str(c)}")
         elif a == "T":
-            toks.append("Tc" if pipes and rng.random() < 0.3 else "T")
+            toks.append(("Tc" if pipes and rng.random() < 0.3 else "T") + (":" + str(rng.randrange(1, 5)) if deep else ""))
         elif a == "R":
             toks.append("R:" + (ROT_ANGLES[(pos_seed + i) % len(ROT_ANGLES)] if all_unset else rng.choice(ROT_ANGLES)))
         else:
-            toks.append("O")
+            toks.append("O" + (":" + str(rng.randrange(1, 4)) if deep else ""))
     return toks
 
 
@@ -751,31 +943,82 @@ def _data(ctx):
     return d
 
 
-def _report(ctx, key, what, auto, cls0, toks, run):
-    ctx.violation(key, what, {"auto_rotation": auto, "in_profile_classifiers": sorted(cls0), "units": toks,
+def _report(ctx, key, what, auto, cls0, toks, run, route="ctor"):
+    ctx.violation(key, what, {"auto_rotation": auto, "in_profile_classifiers": sorted(cls0), "units": toks, "build": route,
                               "observed": show_run(run),
-                              "how": "driver/props/c14.py run_flow(World(), auto, cls0, units): a real PassSequence of the listed units "
-                                     "(P:<rotation setting>:<pass variant>:<classifiers>, T transport, Tc cooling pipe, O plain unit, "
-                                     "R:<angle|u> explicit rotator); units are solved in order with Config.ROLL_PASS_AUTO_ROTATION = "
-                                     "auto_rotation, passes entered with init_solve; ./check C14 --replay <this file>"})
+                              "how": "driver/props/c14.py run_flow(World(), auto, cls0, units, build): a real PassSequence of the listed units "
+                                     "(P:<rotation setting>:<pass variant>[~<disk elements>]:<classifiers>, T[:<disk elements>] transport, "
+                                     "Tc[:<n>] cooling pipe, O[:<parts>] plain unit, R:<angle|u> explicit rotator) put together as `build` says "
+                                     "(ctor = PassSequence(units); append/prepend/extend/iadd/insert/slice = through the list operations; "
+                                     "moved = PassSequence(other.units); copy = deepcopy; flatten:<groups> = from sub-sequences n<k>/N<k> and "
+                                     "direct members t<k>, then seq.flatten()); units are solved in order with "
+                                     "Config.ROLL_PASS_AUTO_ROTATION = auto_rotation, passes entered with init_solve; "
+                                     "./check C14 --replay <this file>"})
 
 
-def shrink(w, spec, auto, cls0, toks, key):
-    """drop units while the same kind of problem persists"""
+def simpler_token(tok):
+    """the same unit without an inner structure of its own (no disk elements / parts), or None"""
+    t = tok.split(":")
+    if t[0] in ("T", "Tc", "O") and len(t) > 1:
+        return t[0]
+    if t[0] == "P" and "~" in t[2]:
+        return ":".join(t[:2] + [t[2].partition("~")[0]] + t[3:])
+    return None
+
+
+def shrink(w, spec, auto, cls0, toks, key, route="ctor"):
+    """drop units / simplify units and the build route while the same kind of problem persists -> (units, build route)"""
+    def fails(cand, r):
+        try:
+            kinds, units, _, run = run_flow(w, auto, cls0, cand, r)
+        except ValueError:
+            return False
+        if run and run[-1]["k"] == "E":
+            return False
+        return any(k == key for (k, _) in oracle_pairs(w, spec, auto, cand, kinds, units, run))
     cur = list(toks)
+    if route != "ctor" and fails(cur, "ctor"):
+        route = "ctor"
     changed = True
     while changed and len(cur) > 1:
         changed = False
         for i in range(len(cur)):
             cand = cur[:i] + cur[i + 1:]
-            kinds, units, _, run = run_flow(w, auto, cls0, cand)
-            if run and run[-1]["k"] == "E":
-                continue
-            if any(k == key for (k, _) in oracle_pairs(w, spec, auto, cand, kinds, units, run)):
-                cur = cand
+            r = route_without(route, i)
+            if fails(cand, r):
+                cur, route = cand, r
                 changed = True
                 break
-    return cur
+    for i in range(len(cur)):
+        st = simpler_token(cur[i])
+        if st is not None and fails(cur[:i] + [st] + cur[i + 1:], route):
+            cur[i] = st
+    if ":" in route:        # fewer / simpler groups
+        head, _, spec_ = route.partition(":")
+        gs = spec_.split(".")
+        j = 0
+        while j < len(gs):
+            cands = []
+            if gs[j] in ("n0", "N0"):
+                cands.append(gs[:j] + gs[j + 1:])
+            if gs[j][0] == "N":
+                cands.append(gs[:j] + ["n" + gs[j][1:]] + gs[j + 1:])
+            if gs[j][0] in "nN":
+                cands.append(gs[:j] + ["t" + gs[j][1:]] + gs[j + 1:])
+            for c in cands:
+                c = [g for g in c if g != "t0"]
+                r = head + ":" + ".".join(c) if any(g[0] in "nN" for g in c) else "ctor"
+                if c and fails(cur, r):
+                    gs, route = c, r
+                    break
+            else:
+                j += 1
+                continue
+            if ":" not in route:
+                break
+        if route.startswith("flatten-append:") and fails(cur, "flatten:" + route.partition(":")[2]):
+            route = "flatten:" + route.partition(":")[2]
+    return cur, route
 
 
 # ---------------------------------------------------------------------------------------------------------------
@@ -805,9 +1048,12 @@ class Hist:
     def __init__(self, w, cls0, real=False):
         self.w, self.cls0, self.real = w, cls0, real
         self.objs = {}            # id -> [kind, unit, token, model token]
-        self.seq = w.PassSequence([])
         self.iterations = [0]
-        if real:
+        self._new_seq([])
+
+    def _new_seq(self, units):
+        self.seq = self.w.PassSequence(units)
+        if self.real:
             orig = self.seq._solve_subunits
             counter = self.iterations
 
@@ -833,9 +1079,13 @@ class Hist:
         else:
             o[3] = "R:u" if v is None else "R:n" + bits(v)
 
-    def arrange(self, arr):
+    def arrange(self, arr, via=None):
         """edit the live sequence so that it holds the units of `arr` (list of "<id>=<token>") in that order, with a
-        single insert / remove / item assignment where one suffices, else by slice assignment"""
+        single insert / append / prepend / remove / del / drop / pop / item assignment where one suffices, else by slice
+        assignment.  `via` (optional) then re-organises the sequence WITHOUT changing the arrangement:
+        "flatten:<i>-<j>" = the units [i, j) are taken out, put into a sub-sequence of their own which is inserted in their
+        place, and the sequence is flattened again with PassSequence.flatten(); "rebuild" = a new PassSequence object is made of
+        the same units (the old one is dropped)"""
         ids = []
         for item in arr:
             i, tok = item.split("=", 1)
@@ -854,14 +1104,23 @@ class Hist:
             if len(new) == len(old) + 1:
                 for j in range(len(new)):
                     if [id(u) for u in new[:j] + new[j + 1:]] == [id(u) for u in old]:
-                        sub.insert(j, new[j])
+                        if j == len(old) and len(new) % 2 == 0:
+                            self.seq.append(new[j])
+                        elif j == 0 and len(new) % 2 == 0:
+                            self.seq.prepend(new[j])
+                        else:
+                            sub.insert(j, new[j])
                         done = True
                         break
             elif len(new) == len(old) - 1:
                 for j in range(len(old)):
                     if [id(u) for u in old[:j] + old[j + 1:]] == [id(u) for u in new]:
-                        if j % 2:
+                        if j % 4 == 1:
                             sub.remove(old[j])
+                        elif j % 4 == 2:
+                            self.seq.drop(j)
+                        elif j % 4 == 3:
+                            sub.pop(j)
                         else:
                             del sub[j]
                         done = True
@@ -873,6 +1132,20 @@ class Hist:
                     done = True
             if not done:
                 sub[:] = new
+        if via == "rebuild":
+            self._new_seq(list(self.seq.units))
+        elif via:
+            head, _, rng_ = via.partition(":")
+            i, j = (int(x) for x in rng_.split("-"))
+            if head != "flatten" or not 0 <= i <= j <= len(new):
+                raise ValueError(f"history step via={via!r}")
+            sub = self.seq.subunits
+            chunk = list(sub[i:j])
+            del sub[i:j]
+            sub.insert(i, self.w.PassSequence(chunk))
+            self.seq.flatten()
+        if [id(u) for u in self.seq] != [id(u) for u in new]:
+            raise ValueError(f"history step (via={via}): the sequence does not hold the listed units in the listed order")
         self.ids = ids
         self.kinds = [self.objs[i][0] for i in ids]
         self.units = new
@@ -997,7 +1270,10 @@ def judge_solved(spec, auto, toks, kinds, units, run_):
 HIST_HOW = ("driver/props/c14.py exec_hist(World(), spec, history): ONE real PassSequence; every step lists its units as <id>=<token> "
             "(objects persist by id; P:<rotation setting>:<pass variant>:<classifiers>[:<pre-processors>], T transport, Tc cooling "
             "pipe, O plain unit, R:<angle|u> explicit rotator); between the steps the live sequence is edited with "
-            "subunits.insert/remove/del/item assignment and `rotation` is set/deleted on the live pass; each step solves with "
+            "subunits.insert/remove/del/pop/item or slice assignment, seq.append/prepend/drop, and `rotation` is set/deleted on the live "
+            "pass; a step with `via` then re-organises the sequence without changing the arrangement (flatten:<i>-<j> = units [i, j) moved "
+            "into a sub-sequence in their place + seq.flatten(); rebuild = new PassSequence of the same units); T:<n>/Tc:<n>/O:<n>/"
+            "<variant>~<n> = units subdivided into n disk elements / parts; each step solves with "
             "Config.ROLL_PASS_AUTO_ROTATION = auto_rotation: marker flows drive `iterations` outer iterations unit by unit (passes "
             "entered with init_solve + reevaluate_cache), real flows call seq.solve(Profile.round(30 mm)) with "
             "max_iteration_count; the FINAL state of the last step is judged; ./check C14 --replay <this file>")
@@ -1008,7 +1284,7 @@ def exec_hist(w, spec, hist):
     h = Hist(w, hist["in_profile_classifiers"], real=hist.get("real", False))
     res = []
     for j, st in enumerate(hist["steps"]):
-        h.arrange(st["units"])
+        h.arrange(st["units"], st.get("via"))
         run_, its = h.solve(st["auto_rotation"], st.get("iterations", 1), st.get("max_iteration_count"))
         probs = []
         if run_ is not None:
@@ -1051,6 +1327,18 @@ def shrink_hist(w, spec, hist, key):
             steps = [dict(st, units=[it for it in st["units"] if it.split("=")[0] != i]) for st in cur["steps"]]
             if all(st["units"] for st in steps):
                 cands.append(dict(cur, steps=steps))
+        for j in range(n):
+            if cur["steps"][j].get("via"):
+                cands.append(dict(cur, steps=cur["steps"][:j] + [{k_: v_ for k_, v_ in cur["steps"][j].items() if k_ != "via"}]
+                                  + cur["steps"][j + 1:]))
+        for j in range(n):
+            for q, it in enumerate(cur["steps"][j]["units"]):
+                i_, tok_ = it.split("=", 1)
+                st_ = simpler_token(tok_)
+                if st_ is not None and not cur["steps"][j].get("via"):
+                    steps = [dict(st, units=[(i_ + "=" + st_) if x.split("=", 1)[0] == i_ else x for x in st["units"]])
+                             for st in cur["steps"]]
+                    cands.append(dict(cur, steps=steps))
         for j in range(n):
             if cur["steps"][j].get("iterations", 1) > 1 and not cur.get("real"):
                 cands.append(dict(cur, steps=cur["steps"][:j] + [dict(cur["steps"][j], iterations=cur["steps"][j]["iterations"] - 1)]
@@ -1106,12 +1394,12 @@ def edit_arrangement(rng, arr, next_id, real=False):
     elif op == "del-rot" and rots:
         del arr[rng.choice(rots)]
     elif op == "ins-plain":
-        arr.insert(rng.randrange(0, len(arr) + 1), f"{next_id}=" + rng.choice(["T", "T", "O", "Tc"]))
+        arr.insert(rng.randrange(0, len(arr) + 1), f"{next_id}=" + rng.choice(["T", "T", "O", "Tc", "T:3", "Tc:2", "O:2"]))
     elif op == "del-plain" and plain:
         del arr[rng.choice(plain)]
     elif op == "replace" and (rots or plain):
         j = rng.choice(rots + plain)
-        arr[j] = f"{next_id}=" + (rng.choice(["T", "O"]) if kinds[j] == "R" else new_rot)
+        arr[j] = f"{next_id}=" + (rng.choice(["T", "O", "T:2", "O:1"]) if kinds[j] == "R" else new_rot)
     elif op == "set" and passes:
         j = rng.choice(passes[1:] or passes)
         i, tok = arr[j].split("=", 1)
@@ -1124,7 +1412,7 @@ def edit_arrangement(rng, arr, next_id, real=False):
             arr[j], arr[j + 1] = arr[j + 1], arr[j]
     elif op == "ins-pass":
         c = rng.choice(CLS_POOL)
-        arr.insert(rng.randrange(0, len(arr) + 1), f"{next_id}=P:u:{rng.choice(['s2', 's2', 's3'])}:{cls_str(c)}")
+        arr.insert(rng.randrange(0, len(arr) + 1), f"{next_id}=P:u:{rng.choice(['s2', 's2', 's3', 's2~2'])}:{cls_str(c)}")
     elif op == "del-pass" and len(passes) > 2:
         del arr[rng.choice(passes)]
     else:
@@ -1143,7 +1431,7 @@ def history_stream(ctx, w, spec, lines, expect, model, seen_keys, n_cases, real=
             nid = 1
             for k in range(1, npass):
                 for _j in range(rng.randrange(0, 3)):
-                    arr.append(f"{nid}=" + rng.choice(["T", "T", "Tc", "R:n90", "O"]))
+                    arr.append(f"{nid}=" + rng.choice(["T", "T", "Tc", "R:n90", "O", "T:2", "Tc:1", "R:n90"]))
                     nid += 1
                 arr.append(f"{nid}=P:{'u' if rng.random() < 0.7 else rng.choice(['t', 'f', 'n45'])}:gw")
                 nid += 1
@@ -1153,7 +1441,7 @@ def history_stream(ctx, w, spec, lines, expect, model, seen_keys, n_cases, real=
             wd = [rng.choice(["P", "P", "P", "T", "T", "R", "O"]) for _ in range(n)]
             if wd.count("P") < 2:
                 wd += ["P"]
-            toks = realise(rng, wd, SETTINGS_X, False, variants=("s2", "s2", "s3"), pipes=True)
+            toks = realise(rng, wd, SETTINGS_X, False, variants=("s2", "s2", "s3"), pipes=True, inner=0.2)
             if rng.random() < 0.2:       # a class with further pre-processors
                 j = rng.choice([j for j, t in enumerate(toks) if t.startswith("P:")])
                 toks[j] += ":" + rng.choice(PRE_PATTERNS)
@@ -1187,9 +1475,19 @@ def history_stream(ctx, w, spec, lines, expect, model, seen_keys, n_cases, real=
                 st = {"auto_rotation": auto, "max_iteration_count": rng.choice([None, None, None, 2, 3]), "units": list(arr)}
             else:
                 st = {"auto_rotation": auto, "iterations": rng.choice([1, 1, 1, 2, 2, 3]), "units": list(arr)}
+            # the sequence re-organised without changing the arrangement (part of it taken into a sub-sequence and flattened
+            # again / a new sequence object made of the same units)
+            rv = rng.random()
+            if rv < 0.25 and arr:
+                i0 = rng.randrange(0, len(arr))
+                st["via"] = "flatten:%d-%d" % (i0, rng.randrange(i0, len(arr) + 1))
+            elif rv < 0.32:
+                st["via"] = "rebuild"
             hist["steps"].append(st)
             ctx.count(("real-history-edit:" if real else "history-edit:") + op)
-            h.arrange(arr)
+            if st.get("via"):
+                ctx.count(("real-history-via:" if real else "history-via:") + st["via"].partition(":")[0])
+            h.arrange(arr, st.get("via"))
             run_, its = h.solve(auto, st.get("iterations", 1), st.get("max_iteration_count"))
             if run_ is None:
                 ctx.count("real-history-solve-raised")
@@ -1215,10 +1513,110 @@ def history_stream(ctx, w, spec, lines, expect, model, seen_keys, n_cases, real=
                 lines.append("hsolve %d %s %s" % (its - 1, cls_str(cls0), " ".join(h.slots())))
                 expect.append(("hist", ({"in_profile_classifiers": sorted(cls0), "real": real,
                                          "steps": [dict(x) for x in hist["steps"]]}, run_, h.caches(), real)))
-        ctx.case(["real-hist" if real else "hist", sorted(cls0), [(s_["auto_rotation"], s_["units"]) for s_ in hist["steps"]]],
+        ctx.case(["real-hist" if real else "hist", sorted(cls0), [(s_["auto_rotation"], s_["units"], s_.get("via")) for s_ in hist["steps"]]],
                  nontrivial=nontriv)
         ctx.count("stream:real-history" if real else "stream:history")
         del h
+
+
+class Graph:
+    """the real object graph below a sequence, written out for the Lean driver (`heap` line): every unit reachable through
+    `subunits` gets a number (kept between two snapshots of the same objects), plus every object a `parent` points to"""
+
+    def __init__(self, w):
+        self.w, self.ids, self.keep = w, {}, []
+
+    def num(self, u):
+        if id(u) not in self.ids:
+            self.ids[id(u)] = len(self.ids)
+            self.keep.append(u)           # keeps the object alive: its id stays its own
+        return self.ids[id(u)]
+
+    def snapshot(self, top):
+        w = self.w
+        order = []
+
+        def visit(u):
+            self.num(u)
+            order.append(u)
+            for c in u.subunits:
+                visit(c)
+        visit(top)
+        seen = {id(u) for u in order}
+        for u in list(order):
+            p = u.parent
+            if p is not None and id(p) not in seen:       # a parent outside the sequence (e.g. a dissolved sub-sequence)
+                seen.add(id(p))
+                order.append(p)
+        self.order = order
+        toks = []
+        for u in order:
+            k = "P" if isinstance(u, w.BaseRollPass) else "R" if isinstance(u, w.Rotator) else \
+                "T" if isinstance(u, w.Transport) else "O"
+            p = u.parent
+            toks.append("%d:%s:%d:%s:%s" % (self.num(u), k, isinstance(u, w.PassSequence), "-" if p is None else self.num(p),
+                                            ".".join(str(self.num(c)) for c in u.subunits) or "-"))
+        return "heap " + " ".join(toks)
+
+    def parents(self):
+        return " ".join("-" if u.parent is None else str(self.num(u.parent)) for u in self.order)
+
+
+def graph_stream(ctx, w, data, lines, expect, n_cases):
+    """(n) the object graph: `PassSequence.flatten` and the walk of `detect_already_rotated` as navigation over parents / member
+    lists, model (`flatten`, `detectNav` of PyrollModel/RotNav.lean on the generated specs) vs the real objects"""
+    rng = ctx.rng
+    walk_fn = next((f for f in w.BaseRollPass.rotation.functions if f.name == data["walk"]["name"]), None)
+    if walk_fn is None:
+        ctx.tie_breaks.append(f"the walk {data['walk']['name']} read from the source is not registered on BaseRollPass.rotation at run time")
+        return
+    for _case in range(n_cases):
+        n = rng.randrange(1, 8)
+        wd = [rng.choice(["P", "P", "P", "T", "T", "R", "O"]) for _ in range(n)]
+        toks = realise(rng, wd, SETTINGS_Q, True, pos_seed=_case, pipes=True, inner=0.5)
+        route = random_route(rng, n, 0.75)
+        auto = rng.random() < 0.85
+        cls0 = rng.choice(CLS_POOL)
+        rp = {"auto_rotation": auto, "in_profile_classifiers": sorted(cls0), "units": toks, "build": route}
+        built = [w.build(t) for t in toks]
+        kinds = [b[0] for b in built]
+        g = Graph(w)
+        if ":" in route:
+            seq = nested(w, [b[1] for b in built], route)
+            units = [b[1] for b in built]
+            lines.append(g.snapshot(seq))
+            expect.append(("ok", None))
+            for _ in range(3):
+                if not any(isinstance(u, w.PassSequence) for u in seq):
+                    break
+                seq.flatten()
+                lines.append("flat %d" % g.num(seq))
+                expect.append(("flat", (".".join(str(g.num(u)) for u in seq) or "-", g.parents(), rp)))
+            if [id(u) for u in seq] != [id(u) for u in units]:
+                raise ValueError(f"build route {route}: the sequence does not hold the listed units in the listed order")
+        else:
+            seq, units = assemble(w, [b[1] for b in built], route)
+        run_ = drive(w, auto, cls0, kinds, units)         # transports / passes are solved: their disk elements exist now
+        lines.append(g.snapshot(seq))
+        expect.append(("ok", None))
+        lines.append("auto " + ("1" if auto else "0"))
+        expect.append(("ok", None))
+        with w.switch(auto):
+            for k, u in zip(kinds, units):
+                if k != "P":
+                    continue
+                try:
+                    v = walk_fn.function(u)
+                    got = "t" if v is True else "f" if v is False else "none" if v is None else "?" + repr(v)
+                except (ValueError, IndexError) as e:
+                    if not _in_impl(e):
+                        raise
+                    got = "E:value" if isinstance(e, ValueError) else "E:index"
+                lines.append("nav %d" % g.num(u))
+                expect.append(("nav", (got, dict(rp, unit=units.index(u)))))
+        ctx.case(["graph", auto, toks, route], nontrivial=kinds.count("P") >= 1 and n >= 2)
+        ctx.count("stream:object-graph")
+        del seq, run_
 
 
 PRE_PATTERNS = ["iF", "Fi", "nF", "Fn", "mF", "Fm", "iFi", "nFi", "Fni", "iFn", "mFi", "inFim", "Fii", "iiF", "Fmn"]
@@ -1240,8 +1638,9 @@ def preprocessor_stream(ctx, w, spec, lines, expect, model, seen_keys):
                     if rng.random() < 0.3:
                         toks = [f"P:{rng.choice(SETTINGS_Q)}:s2:{cls_str(rng.choice(CLS_POOL))}:{rng.choice(PRE_PATTERNS)}"] + toks
                     cls0 = rng.choice(CLS_POOL)
-                    kinds, units, mtoks, run_ = run_flow(w, auto, cls0, toks)
-                    ctx.case([auto, sorted(cls0), toks], nontrivial=True)
+                    route = random_route(rng, len(toks), 0.5) if rng.random() < 0.3 else "ctor"
+                    kinds, units, mtoks, run_ = run_flow(w, auto, cls0, toks, route)
+                    ctx.case([auto, sorted(cls0), toks, route], nontrivial=True)
                     ctx.count("stream:pre-processors")
                     ctx.count("pre-processors:" + pres)
                     errored = bool(run_) and run_[-1]["k"] == "E"
@@ -1252,10 +1651,10 @@ def preprocessor_stream(ctx, w, spec, lines, expect, model, seen_keys):
                         if k in seen_keys:
                             continue
                         seen_keys.add(k)
-                        small = shrink(w, spec, auto, cls0, toks, k)
-                        kinds2, units2, _, run2 = run_flow(w, auto, cls0, small)
+                        small, r2 = shrink(w, spec, auto, cls0, toks, k, route)
+                        kinds2, units2, _, run2 = run_flow(w, auto, cls0, small, r2)
                         what2 = next((x for (kk, x) in oracle_pairs(w, spec, auto, small, kinds2, units2, run2) if kk == k), what)
-                        _report(ctx, k, what2, auto, cls0, small, run2)
+                        _report(ctx, k, what2, auto, cls0, small, run2, r2)
                     if model:
                         slots = ["P#%d:%s" % (j, m_[2:]) if kd == "P" else m_ for j, (kd, m_) in enumerate(zip(kinds, mtoks))]
                         lines.append("hreset")
@@ -1263,7 +1662,7 @@ def preprocessor_stream(ctx, w, spec, lines, expect, model, seen_keys):
                         lines.append("auto " + ("1" if auto else "0"))
                         expect.append(("ok", None))
                         lines.append("hsolve 0 %s %s" % (cls_str(cls0), " ".join(slots)))
-                        expect.append(("seq-pre", (auto, cls0, toks, run_)))
+                        expect.append(("seq-pre", (auto, cls0, toks, run_, route)))
 
 
 def run(ctx):
@@ -1372,9 +1771,11 @@ def run(ctx):
                 expect.append(("rule", (got, replay_obj)))
 
     # ---- sequences ------------------------------------------------------------------------------------------------------
-    cases = []          # (stream, auto, cls0, toks)
+    cases = []          # (stream, auto, cls0, toks, build route)
     for (auto, cls0, toks) in CORPUS:
-        cases.append(("corpus", auto, cls0, toks))
+        cases.append(("corpus", auto, cls0, toks, "ctor"))
+    for (auto, cls0, toks, route) in CORPUS_BUILT:
+        cases.append(("corpus", auto, cls0, toks, route))
     # (c) all words of length <= 5: all passes unset x both switch values, plus the same word with drawn settings
     maxlen = 5
     n_word = 0
@@ -1383,28 +1784,37 @@ def run(ctx):
             n_word += 1
             for auto in (True, False):
                 toks = realise(rng, wd, SETTINGS_Q, True, pos_seed=n_word)
-                cases.append(("exh-unset", auto, CLS_POOL[n_word % len(CLS_POOL)], toks))
+                cases.append(("exh-unset", auto, CLS_POOL[n_word % len(CLS_POOL)], toks, "ctor"))
+            # the same word once more: the sequence put together another way (list operations, sub-sequences + flatten(), a copy),
+            # transports / plain units / passes with an inner structure of their own (disk elements, parts)
+            toks = realise(rng, wd, SETTINGS_Q, True, pos_seed=n_word, pipes=True, inner=0.5)
+            cases.append(("exh-built", n_word % 5 != 0, CLS_POOL[n_word % len(CLS_POOL)], toks, random_route(rng, n, 0.6)))
             if "P" in wd:
                 reps = 3 if (ctx.tier == "thorough" or ctx.extended) else 1
                 for _ in range(reps):
                     toks = realise(rng, wd, SETTINGS_X if ctx.tier == "thorough" else SETTINGS_Q, False,
-                                   variants=("s2", "s2", "s3"))
-                    cases.append(("exh-settings", rng.random() < 0.7, rng.choice(CLS_POOL), toks))
+                                   variants=("s2", "s2", "s3"), inner=0.2)
+                    cases.append(("exh-settings", rng.random() < 0.7, rng.choice(CLS_POOL), toks,
+                                  random_route(rng, n, 0.5) if rng.random() < 0.4 else "ctor"))
     # (d) random words of length <= 8
     for _ in range(ctx.budget(300, 15000)):
         n = rng.randrange(2, 9)
         wd = [rng.choice(["P", "P", "P", "T", "T", "R", "O"]) for _ in range(n)]
         toks = realise(rng, wd, SETTINGS_X, False, variants=("s2", "s2", "s3", "g=oval", "g=round", "g=box", "g=diamond",
-                                                             "g=square", "g=swedish", "g3"), pipes=True)
-        cases.append(("random", rng.random() < 0.75, rng.choice(CLS_POOL), toks))
+                                                             "g=square", "g=swedish", "g3"), pipes=True, inner=0.25)
+        cases.append(("random", rng.random() < 0.75, rng.choice(CLS_POOL), toks,
+                      random_route(rng, n, 0.5) if rng.random() < 0.5 else "ctor"))
 
     seen_keys = set()
 
-    def one_sequence(stream, auto, cls0, toks):
-        kinds, units, mtoks, run_ = run_flow(w, auto, cls0, toks)
+    def one_sequence(stream, auto, cls0, toks, route):
+        kinds, units, mtoks, run_ = run_flow(w, auto, cls0, toks, route)
         npass = sum(1 for k in kinds if k == "P")
-        ctx.case([auto, sorted(cls0), toks], nontrivial=npass >= 2)
+        ctx.case([auto, sorted(cls0), toks] + ([route] if route != "ctor" else []), nontrivial=npass >= 2)
         ctx.count("stream:" + stream)
+        ctx.count("build:" + route.partition(":")[0])
+        if any(simpler_token(t) is not None for t in toks):
+            ctx.count("units-with-inner-structure")
         ctx.count("auto:" + ("on" if auto else "off"))
         for o in run_:
             if o["k"] == "P":
@@ -1420,25 +1830,25 @@ def run(ctx):
             key = "flow-raises-" + run_[-1]["exc"]
             if key not in seen_keys:
                 seen_keys.add(key)
-                _report(ctx, key, f"unit #{len(run_) - 1} raises {run_[-1]['exc']}: {run_[-1]['msg']}", auto, cls0, toks, run_)
+                _report(ctx, key, f"unit #{len(run_) - 1} raises {run_[-1]['exc']}: {run_[-1]['msg']}", auto, cls0, toks, run_, route)
         probs = oracle_pairs(w, spec, auto, toks, kinds, units, run_)
         for (k, what) in probs:
             if k in seen_keys:
                 continue
             seen_keys.add(k)
-            small = shrink(w, spec, auto, cls0, toks, k) if len(toks) > 2 else toks
-            kinds2, units2, _, run2 = run_flow(w, auto, cls0, small)
+            small, r2 = shrink(w, spec, auto, cls0, toks, k, route) if len(toks) > 2 else (toks, route)
+            kinds2, units2, _, run2 = run_flow(w, auto, cls0, small, r2)
             what2 = next((x for (kk, x) in oracle_pairs(w, spec, auto, small, kinds2, units2, run2) if kk == k), what)
-            _report(ctx, k, what2, auto, cls0, small, run2)
+            _report(ctx, k, what2, auto, cls0, small, run2, r2)
         if model:
             lines.append("auto " + ("1" if auto else "0"))
             expect.append(("ok", None))
             lines.append("seq " + cls_str(cls0) + " " + " ".join(mtoks))
-            expect.append(("seq", (auto, cls0, toks, run_)))
+            expect.append(("seq", (auto, cls0, toks, run_, route)))
 
-    for (stream, auto, cls0, toks) in cases:
-        guarded(ctx, "a flat sequence", {"auto_rotation": auto, "in_profile_classifiers": sorted(cls0), "units": toks},
-                lambda: one_sequence(stream, auto, cls0, toks))
+    for (stream, auto, cls0, toks, route) in cases:
+        guarded(ctx, "a flat sequence", {"auto_rotation": auto, "in_profile_classifiers": sorted(cls0), "units": toks, "build": route},
+                lambda: one_sequence(stream, auto, cls0, toks, route))
 
     # ---- (p) further pre-processors on the pass class -----------------------------------------------------------------
     guarded(ctx, "pre-processor scenarios", {}, lambda: preprocessor_stream(ctx, w, spec, lines, expect, model, seen_keys))
@@ -1548,6 +1958,10 @@ def run(ctx):
                                        poly.area, poly.length, sc, rp)))
         guarded(ctx, "a ring through a rotator", rp, ring_judge)
 
+    # ---- (n) the object graph: flatten and the walk as navigation, model vs real objects -------------------------------
+    if model:
+        guarded(ctx, "object graphs", {}, lambda: graph_stream(ctx, w, data, lines, expect, ctx.budget(150, 3000)))
+
     # ---- information only: nested sequences (outside the quantifier) -----------------------------------------------------
     guarded(ctx, "nested sequences (information only)", {}, lambda: nested_info(ctx, w))
 
@@ -1572,17 +1986,17 @@ def run(ctx):
                 if ln != str(got):
                     bad = (f"rule table: model {ln}, implementation {got}", dict(rp, model=ln, impl=got))
             elif kind in ("seq", "seq-blind"):
-                auto, cls0, toks, run_ = pay
+                auto, cls0, toks, run_, route = pay
                 why = compare_with_model(run_, ln, blind_auto=(kind == "seq-blind"))
                 if why:
-                    bad = (why, {"auto_rotation": auto, "in_profile_classifiers": sorted(cls0), "units": toks,
+                    bad = (why, {"auto_rotation": auto, "in_profile_classifiers": sorted(cls0), "units": toks, "build": route,
                                  "impl": show_run(run_), "model": ln})
             elif kind == "seq-pre":
-                auto, cls0, toks, run_ = pay
+                auto, cls0, toks, run_, route = pay
                 why = compare_with_model(run_, ln.partition(" | ")[0])
                 if why:
                     bad = ("pass class with further pre-processors: " + why,
-                           {"auto_rotation": auto, "in_profile_classifiers": sorted(cls0), "units": toks,
+                           {"auto_rotation": auto, "in_profile_classifiers": sorted(cls0), "units": toks, "build": route,
                             "impl": show_run(run_), "model": ln})
             elif kind == "hist":
                 hist, run_, caches, real = pay
@@ -1592,6 +2006,17 @@ def run(ctx):
                     why = f"cached `rotation` of the passes after the solve: model {right.strip()}, implementation {caches}"
                 if why:
                     bad = ("history (last step): " + why, dict(hist, impl=show_run(run_), model=ln, how=HIST_HOW))
+            elif kind == "flat":
+                members, parents, rp = pay
+                if [x.strip() for x in ln.split("|")] != [members, parents]:
+                    bad = (f"PassSequence.flatten on the object graph: model members | parents = {ln}, implementation {members} | {parents}",
+                           dict(rp, model=ln, impl=members + " | " + parents, what="members of the flattened sequence | parent of "
+                                "every unit (numbered in the order of a walk through `subunits`, the sequence itself = 0)"))
+            elif kind == "nav":
+                got, rp = pay
+                if ln.strip() != got:
+                    bad = (f"detect_already_rotated on the object graph: model {ln.strip()}, implementation {got}",
+                           dict(rp, model=ln.strip(), impl=got))
             elif kind == "solo":
                 o, rp = pay
                 why = compare_with_model([o], ln)
@@ -1632,24 +2057,31 @@ def real_solve_stream(ctx, w, spec, lines, expect, model):
             s = "u" if (k == 0 or rng.random() < 0.6) else rng.choice(["t", "n90", "n90.0", "f", "n0", "n45"])
             sv = parse_setting(s)
             kw = {} if sv is None else {"rotation": sv}
+            disks = rng.randrange(1, 4) if rng.random() < 0.15 else 0
+            if disks:
+                kw["disk_element_count"] = disks
             p, _k = make_pass(rng, kind=kind, scale=0.92 ** k, **kw)
             if k > 0:
                 for _j in range(rng.randrange(0, 4)):
                     a = rng.choice(["T", "T", "R", "O", "Tc"])
                     if a == "R":
                         tk = "R:" + rng.choice(["n90", "n90", "u", "n-90", "n270"])
+                    elif rng.random() < 0.35:      # a transport subdivided into disk elements / a plain unit made of parts
+                        tk = a + ":" + str(rng.randrange(1, 5))
                     else:
                         tk = a
                     kd, u, _m = w.build(tk)
                     toks.append(tk)
                     units.append(u)
                     kinds.append(kd)
-            toks.append(f"P:{s}:g={kind}")
+            toks.append(f"P:{s}:g={kind}" + (f"~{disks}" if disks else ""))
             units.append(p)
             kinds.append("P")
         ip = make_in_profile(rng, "round", size=30e-3)
-        seq = w.PassSequence(units)
+        route = random_route(rng, len(units), 0.6) if rng.random() < 0.5 else "ctor"
+        seq, units = assemble(w, units, route)
         ctx.count("stream:real-solve")
+        ctx.count("real-solve-build:" + route.partition(":")[0])
         try:
             with w.switch(auto):
                 seq.solve(ip)
@@ -1658,9 +2090,10 @@ def real_solve_stream(ctx, w, spec, lines, expect, model):
                 raise
             ctx.count("real-solve-raised:" + type(e.__cause__ or e).__name__)
             continue
-        ctx.case(["real", auto, toks], nontrivial=True)
-        rp = {"auto_rotation": auto, "units": toks, "in_profile": "Profile.round(diameter=30e-3)",
-              "how": "real PassSequence(units).solve(in_profile); passes from driver/props/common.make_pass (oval/round alternating)"}
+        ctx.case(["real", auto, toks] + ([route] if route != "ctor" else []), nontrivial=True)
+        rp = {"auto_rotation": auto, "units": toks, "build": route, "in_profile": "Profile.round(diameter=30e-3)",
+              "how": "real PassSequence of the listed units, put together as `build` says (see driver/props/c14.py assemble), "
+                     ".solve(in_profile); passes from driver/props/common.make_pass (oval/round alternating)"}
 
         def judge():
             run_ = observe_solved(w, seq, kinds, units)
@@ -1681,7 +2114,7 @@ def real_solve_stream(ctx, w, spec, lines, expect, model):
             lines.append("auto " + ("1" if auto else "0"))
             expect.append(("ok", None))
             lines.append("seq round " + " ".join(mtoks))
-            expect.append(("seq-blind", (auto, ["round"], toks, run_)))
+            expect.append(("seq-blind", (auto, ["round"], toks, run_, route)))
 
 
 def nested_info(ctx, w):
@@ -1740,12 +2173,12 @@ def replay(ctx, data):
             for (k, what) in res[-1][2]:
                 report_hist(ctx, w, spec, hist, k, what)
     elif "units" in r and "in_profile_classifiers" in r:
-        auto, cls0, toks = r["auto_rotation"], r["in_profile_classifiers"], r["units"]
-        kinds, units, _, run_ = run_flow(w, auto, cls0, toks)
+        auto, cls0, toks, route = r["auto_rotation"], r["in_profile_classifiers"], r["units"], r.get("build", "ctor")
+        kinds, units, _, run_ = run_flow(w, auto, cls0, toks, route)
         for (k, what) in oracle_pairs(w, spec, auto, toks, kinds, units, run_):
-            _report(ctx, k, what, auto, cls0, toks, run_)
+            _report(ctx, k, what, auto, cls0, toks, run_, route)
         if run_ and run_[-1]["k"] == "E" and needs_next_pass_ok(toks):
-            _report(ctx, "flow-raises-" + run_[-1]["exc"], run_[-1]["msg"], auto, cls0, toks, run_)
+            _report(ctx, "flow-raises-" + run_[-1]["exc"], run_[-1]["msg"], auto, cls0, toks, run_, route)
     elif "pass_classifiers" in r:
         with w.switch(True), w.Spy(w) as spy:
             cn = set(r["pass_classifiers"])
